@@ -63,7 +63,15 @@ def build_session(rng, tmp, kind, metric, ext, rep, tm):
         cfg["min_k"] = rng.randrange(1, cfg["max_k"] + 1)
     a = s.new_model(kind, 1, **cfg)
     try:
-        b = s.new_model(kind, 1, pre_computed_distance=path, **cfg)
+        # the model on the file need not be told which metric wrote it: with pre-computed distances the `distance` argument names
+        # nothing that is read (default, or some other identifier, in half of the sessions)
+        cfg_b = dict(cfg)
+        pick = rng.randrange(4)
+        if pick >= 2:
+            cfg_b.pop("distance")
+            if pick == 3:
+                cfg_b["distance"] = "manhattan" if metric != "manhattan" else "chebyshev"
+        b = s.new_model(kind, 1, pre_computed_distance=path, **cfg_b)
     except Exception as ex:
         return s, ("constructor", "%s: %s" % (type(ex).__name__, str(ex)[:150])), {"ext": ext}
     extra = (Z[Iu].copy(),) if kind == "semi" else ()
